@@ -3,7 +3,7 @@ import itertools
 import random
 import threading
 
-from .. import e2e, gen
+from .. import e2e, gen, oracles
 from ..oracles import V
 
 PROPERTY = 'C17'
@@ -613,6 +613,11 @@ def e2e_eval(obs):
             for info in s.done_info:
                 if not info['future_done']:
                     viol.append(V(f'{x.label}: future.done() False inside on_done', sym='on_done-not-done', cls='e2e'))
+        v1 = oracles.first_outcome_oracle(obs, x)
+        for v in v1:
+            v['mech']['cls'] = 'e2e'
+        viol += v1
+        stats['done_seen'] = stats.get('done_seen', 0) + len([e for e in obs.events if e['kind'] == 'done.seen' and e.get('label') == x.label])
     lv = getattr(obs, 'lockset_violations', [])
     if lv:
         viol.append(V(f'coordinator field {lv[0][0]} written by {lv[0][1]} without its lock', sym='lockset', cls='e2e'))
@@ -700,6 +705,27 @@ def gen_cases(tier, seed):
         spec = gen.mix(rng, rng.choice([1, 2]), hi=3)
         if rng.random() < 0.7:
             fault_or_cancel(rng, spec['transfers'][0], spec)
+        spec['poll_done'] = True
+        cases.append({'type': 'e2e', 'spec': spec})
+    # two things go wrong one after the other: a request fails (or the transfer is cancelled) while the submission thread is still
+    # reading the source stream, and then that read fails too - a user polling done() has seen True in between, so the second
+    # failure may not become the reported one
+    for i in range(80 if quick else 800):
+        src = rng.choice(['nonseekable', 'seekable'])
+        mem = rng.choice([1, 1, 2])
+        cfg = dict(multipart_threshold=8, multipart_chunksize=8, max_request_concurrency=rng.choice([1, 2]), max_submission_concurrency=1,
+                   max_in_memory_upload_chunks=mem)
+        spec = {'min_part': 8, 'config': cfg, 'seed': rng.randrange(1 << 30), 'family': 'two-step', 'poll_done': True,
+                'transfers': [{'kind': 'upload', 'src': src, 'size': rng.choice([41, 57, 73])}]}
+        first = rng.choice(['t0/s3:UploadPart:1#0', 't0/s3:UploadPart:2#0'])
+        # the source read that fails comes well after the parts the in-memory limit lets the submission thread read ahead
+        plan = {'gate': {'match': '/s3:UploadPart', 'phase': rng.choice(['before', 'after']), 'policy': 'seeded'},
+                'faults': [{'at': f't0/src:read#{rng.randrange(mem + 3, mem + 6)}', 'phase': rng.choice(['before', 'after']), 'kind': 'exc', 'tag': 'FAULT-src'}]}
+        if rng.random() < 0.5:
+            plan['cancel'] = {'at': first, 'phase': rng.choice(['before', 'after']), 'how': 'future.cancel', 'from': rng.choice(['event', 'main'])}
+        else:
+            plan['faults'].append({'at': first, 'phase': rng.choice(['before', 'after']), 'kind': 'exc', 'tag': 'FAULT-req'})
+        spec['plan'] = plan
         cases.append({'type': 'e2e', 'spec': spec})
     return cases
 
